@@ -4,6 +4,10 @@ Hang kinds per class (a blocked application hangs only the sync worker; gthread 
 loop whatever the handlers do): sync {application blocks forever, application that ignores SIGABRT and blocks, SIGSTOP},
 gthread {SIGSTOP}, gevent / eventlet {non-yielding busy loop, SIGSTOP}.  Healthy patterns: idle for 4 x timeout;
 back-to-back requests each lasting 0.5 x timeout; (gthread / gevent / eventlet) one request lasting 3 x timeout in a handler.
+Position of the hung worker: a stopped worker is the oldest, the youngest or a middle one of the pool (rotated); in every hang
+scenario the workers that did not hang are the same live processes after the hung one was replaced, and one worker was started.
+The master itself paused: the master alone is stopped (SIGSTOP) for 3.5 x timeout while its three workers run on, continued;
+nobody may be killed for that; then one worker is stopped - killed and replaced within the same bounds as ever.
 Idle on a listener the master did not create itself: the launcher (the process that becomes the master) opens the listening
 socket in BLOCKING mode, as a socket-activating service manager does by default, and hands it over either the systemd way
 (descriptor 3, LISTEN_FDS / LISTEN_PID) or as `--bind fd://N`; one request, idle for 4 x timeout, one more request.
@@ -56,6 +60,53 @@ def socket_inodes(pid):
     return out
 
 
+def proc_state(e4, pid):
+    return e4.proc_table().get(pid, (None, None, None))[1]
+
+
+def wait_state(e4, pid, want_stopped, maxwait=10.0):
+    t0 = time.monotonic()
+    while time.monotonic() - t0 < maxwait:
+        st = proc_state(e4, pid)
+        if st is None:
+            return False
+        if (st in ("T", "t")) == want_stopped:
+            return True
+        time.sleep(0.02)
+    return False
+
+
+def pause_master(e4, srv, lag, w0, v, info):
+    """Stop the master alone for 3.5 x timeout (its workers run on and are asked for their pid meanwhile), continue it, give it
+    two rounds of its loop.  Returns a reason when that could not be established, None otherwise (violations appended to v)."""
+    time.sleep(2.5)         # a master that has been going round its loop for a while, not one that has just booted
+    t_p = time.monotonic()
+    if not srv.signal(signal.SIGSTOP) or not wait_state(e4, srv.master_pid, True):
+        return "the master could not be stopped"
+    t_s = time.monotonic()
+    answers = []
+    while time.monotonic() - t_s < 3.5 * TIMEOUT:
+        answers.append(e4.request(srv.addr, "/pid", timeout=6)["outcome"])
+        time.sleep(0.25)
+    if proc_state(e4, srv.master_pid) not in ("T", "t"):
+        return "the master did not stay stopped"
+    info["master_paused_for"] = round(time.monotonic() - t_s, 2)
+    info["answers_while_master_paused"] = "%d ok of %d" % (answers.count("ok"), len(answers))
+    if not srv.signal(signal.SIGCONT) or not wait_state(e4, srv.master_pid, False):
+        return "the master could not be continued"
+    time.sleep(2.5)
+    w1 = srv.worker_pids()
+    log = srv.error_log()
+    if "WORKER TIMEOUT" in log or set(w1) != set(w0):
+        maxlag = lag.max_lag(since=t_p)
+        if maxlag > 0.5:
+            return "worker lost after the master was paused but scheduling lag was %.2f s" % maxlag
+        v.append(("healthy-worker-killed/after-master-pause", "%s: the master alone was stopped for %.1f s and continued; its workers "
+                  "ran on: worker set %s -> %s, WORKER TIMEOUT in log: %s (timeout %d s)" % (
+                      srv.worker_class, info["master_paused_for"], w0, w1, "WORKER TIMEOUT" in log, TIMEOUT)))
+    return None
+
+
 def probe_loop(e4, srv, stop, log):
     while not stop.is_set():
         r = e4.request(srv.addr, "/pid", timeout=6)
@@ -90,7 +141,8 @@ def scenario(run, e4, sc):
             "if _hang:\n"
             "    while True:\n"
             "        time.sleep(3600)\n", 1)
-    srv = e4.Server("c11", worker_class=wc, workers=2, settings=settings, bind=sc.get("bind", "tcp"), app_source=app_source)
+    nw = sc.get("workers", 2)
+    srv = e4.Server("c11", worker_class=wc, workers=nw, settings=settings, bind=sc.get("bind", "tcp"), app_source=app_source)
     note = os.path.join(srv.dir, "listener_handed_over")
     if "inherited" in sc["kind"]:
         systemd = sc["kind"].endswith("systemd")
@@ -105,7 +157,7 @@ def scenario(run, e4, sc):
     stop = threading.Event()
     try:
         srv.start()
-        w0 = srv.wait_workers(2, 25)
+        w0 = srv.wait_workers(nw, 25)
         if not w0 or not srv.wait_listening(5):
             return v, "server did not boot: %s" % srv.stderr()[-300:], info
         kind = sc["kind"]
@@ -214,11 +266,13 @@ def scenario(run, e4, sc):
         # ---- hang scenarios ----------------------------------------------------------------------
         plog = []
         pt = threading.Thread(target=probe_loop, args=(e4, srv, stop, plog), daemon=True)
+        harness_killed = []
         if kind == "hang-at-boot":
             # kill one worker: its replacement hangs while loading the application
             open(os.path.join(srv.dir, "hang_boot"), "w").close()
             os.chmod(os.path.join(srv.dir, "hang_boot"), 0o666)
             os.kill(w0[0], signal.SIGKILL)
+            harness_killed.append(w0[0])
             victim = None
             t1 = time.monotonic()
             while time.monotonic() - t1 < 10 and victim is None:
@@ -245,12 +299,20 @@ def scenario(run, e4, sc):
                 time.sleep(0.4)
                 if victim == min(w0):           # only the oldest worker becomes surplus
                     srv.signal(signal.SIGTTOU)
-        else:   # stop
-            victim = w0[0]
+        else:   # stop, stop-after-master-pause
+            ages = {e["wpid"]: e["age"] for e in srv.events() if e["kind"] == "post_fork"}
+            by_age = sorted(w0, key=lambda p: (ages.get(p, 0), p))
+            if kind == "stop-after-master-pause":
+                reason = pause_master(e4, srv, lag, w0, v, info)
+                if reason is not None or v:
+                    return v, reason, info
+                run.count("live_master_pause_established")
+            victim = by_age[{"oldest": 0, "youngest": -1, "middle": len(by_age) // 2}[sc.get("victim", "oldest")]]
+            info["victim"] = "%s of %d" % (sc.get("victim", "oldest"), len(by_age))
             os.kill(victim, signal.SIGSTOP)
         t_hang = time.monotonic()
         pt.start()
-        needs_kill = kind in ("block-ignabrt", "stop")
+        needs_kill = kind in ("block-ignabrt", "stop", "stop-after-master-pause")
         limit_dead = TIMEOUT + 2 + (2 if needs_kill else 0) + 2.0
         dead_at = None
         while time.monotonic() - t_hang < limit_dead + 4:
@@ -273,6 +335,8 @@ def scenario(run, e4, sc):
                 return v, None, info
         else:
             run.count("live_hung_worker_killed")
+            if kind == "stop-after-master-pause":
+                run.count("live_hung_worker_killed_after_master_pause")
         if kind == "block-then-ttou":
             stop.set()
             return v, None, info
@@ -281,7 +345,7 @@ def scenario(run, e4, sc):
         neww = None
         while time.monotonic() - t1 < 4.0 + 2.0:
             ws = srv.worker_pids()
-            if len(ws) == 2 and victim not in ws:
+            if len(ws) == nw and victim not in ws:
                 inited = set(e["wpid"] for e in srv.events() if e["kind"] == "post_worker_init")
                 if all(p in inited for p in ws):
                     neww = ws
@@ -291,6 +355,29 @@ def scenario(run, e4, sc):
             v.append(("killed-worker-not-replaced", "pool %s 6 s after the hung worker died" % srv.worker_pids()))
         else:
             run.count("live_replacement_checks")
+            if kind != "block-then-hup":        # (there every worker of the old generation is retired, as asked)
+                # the workers that did not hang are the same live processes, and one worker was started for the one that hung
+                time.sleep(1.0)
+                ws = srv.worker_pids()
+                others = [p for p in w0 if p != victim and p not in harness_killed]
+                gone = [p for p in others if p not in ws]
+                started = sorted(set(e["wpid"] for e in srv.events() if e["kind"] == "post_fork") - set(w0) - {victim})
+                info["started_after_hang"] = len(started)
+                if gone or len(started) > 1:
+                    maxlag = lag.max_lag(since=t_hang)
+                    if maxlag > 0.5:
+                        return v, "bystander lost but scheduling lag was %.2f s" % maxlag, info
+                    if gone:
+                        v.append(("healthy-bystander-of-a-hung-worker-replaced/" + kind,
+                                  "%s, %d workers %s, worker %d hung (%s, %s): afterwards the healthy worker(s) %s are gone, pool %s, "
+                                  "%d workers started since" % (wc, nw, w0, victim, kind, info.get("victim", "the one that took the "
+                                                                "request"), gone, ws, len(started))))
+                    if len(started) > 1:
+                        v.append(("more-than-one-worker-started-for-one-hung-worker/" + kind,
+                                  "%s, %d workers %s, worker %d hung (%s): %d workers were started afterwards: %s" % (
+                                      wc, nw, w0, victim, kind, len(started), started)))
+                elif len(started) == 1:
+                    run.count("live_bystander_checks")
         stop.set()
         pt.join(8)
         failed = [r for r in plog if r["outcome"] != "ok"]
@@ -309,7 +396,8 @@ def scenario(run, e4, sc):
 
 def plan(run, tier, seed):
     run.require("live_healthy_checks", "live_hung_worker_killed", "live_replacement_checks", "live_probe_checks",
-                "live_inherited_blocking_listener_checks")
+                "live_inherited_blocking_listener_checks", "live_bystander_checks", "live_master_pause_established",
+                "live_hung_worker_killed_after_master_pause")
     cells = [("sync", "block"), ("sync", "block-ignabrt"), ("sync", "stop"), ("gthread", "stop"), ("gevent", "busy"),
              ("eventlet", "busy"), ("gevent", "stop"), ("eventlet", "stop"),
              ("sync", "healthy-idle"), ("gthread", "healthy-idle"), ("gevent", "healthy-idle"), ("eventlet", "healthy-idle"),
@@ -339,10 +427,20 @@ def plan(run, tier, seed):
                 or (c[1] in ("healthy-long-retired", "healthy-idle-keepalive") and c[0] in (rot[seed % 3], rot[(seed + 1) % 3]))
                 or (c[1] not in ("healthy-long-retired", "healthy-idle-keepalive", "hang-at-boot") and (i + seed) % 2 == 0)]
         cells = pick
-    out = [{"kind": "live", "scenario": {"class": c, "kind": k, "idx": i, "seed": seed}, "seed": seed, "tier": tier}
-           for i, (c, k) in enumerate(cells)]
+    # which worker of the pool is the one that gets stopped: rotated over the table positions
+    pos = ["youngest", "oldest"]
+    out = [{"kind": "live", "scenario": dict({"class": c, "kind": k, "idx": i, "seed": seed},
+                                             **({"victim": pos[(i + seed) % 2] if c in ("gevent", "eventlet") else "youngest"}
+                                                if k == "stop" else {})),
+            "seed": seed, "tier": tier} for i, (c, k) in enumerate(cells)]
+    # the master alone is paused for longer than the timeout and continued; afterwards one of three workers is stopped
+    classes = ["sync", "gthread", "gevent", "eventlet"]
+    paused = [classes[seed % 4]] if tier == "quick" else classes
+    first = [{"kind": "live", "scenario": {"class": c, "kind": "stop-after-master-pause", "idx": 1000 + j, "seed": seed, "workers": 3,
+                                           "victim": ["youngest", "middle"][(seed + j) % 2]}, "seed": seed, "tier": tier}
+             for j, c in enumerate(paused)]
     # (started first: they take 4 x timeout + boot each and would otherwise be the tail of the run)
-    return [{"kind": "live", "scenario": {"class": c, "kind": k, "idx": len(out) + j, "seed": seed, "bind": binds[(c, k)]},
+    return first + [{"kind": "live", "scenario": {"class": c, "kind": k, "idx": len(out) + j, "seed": seed, "bind": binds[(c, k)]},
              "seed": seed, "tier": tier} for j, (c, k) in enumerate(inherited)] + out
 
 
